@@ -49,6 +49,20 @@ Definition needs_escape (c : N) : bool := (c <? 32) || (c =? 34) || (c =? 92).
 
 Definition count (f : N -> bool) (l : list N) : N := lenN (filter f l).
 
+(* one entry per stored lease: the entries are the rows' entries in SOME order (the property does not fix
+   the order; the order the handler produces is compared separately, as a correspondence) *)
+Fixpoint remove_entry (x : entry) (l : list entry) : option (list entry) :=
+  match l with
+  | [] => None
+  | y :: r => if entry_eqb x y then Some r
+              else match remove_entry x r with Some r' => Some (y :: r') | None => None end
+  end.
+Fixpoint same_entries (a b : list entry) : bool :=
+  match a with
+  | [] => match b with [] => true | _ => false end
+  | x :: r => match remove_entry x b with Some b' => same_entries r b' | None => false end
+  end.
+
 Definition check_listing (rows : list lease) (status utf8 : N) (body : list N) : list N :=
   if negb (status =? 200) then v_viol 3
   else if utf8 =? 0 then v_viol 1
@@ -58,7 +72,7 @@ Definition check_listing (rows : list lease) (status utf8 : N) (body : list N) :
          match entries j with
          | None => v_viol 2
          | Some es =>
-           if negb (list_eqb entry_eqb es (map spec_entry rows)) then v_viol 2
+           if negb (same_entries es (map spec_entry rows)) then v_viol 2
            else if negb (list_eqb N.eqb body (render rows)) then v_diff (put_bytes (render rows))
            else v_ok (match rows with
                       | [] => 1
@@ -75,7 +89,9 @@ Definition check_C20 (ts : list N) : list N :=
     match tok_rows (N.to_nat n) r with
     | Some (rows, status :: utf8 :: r2) =>
       match tok_bytes r2 with
-      | Some (body, []) => if forallb wf_lease rows then check_listing rows status utf8 body else v_bad
+      | Some (body, []) =>
+        (* via 1 (the served listing): the rows come in the order the store returns them; the handler sorts *)
+        if forallb wf_lease rows then check_listing (if via =? 1 then sort_by_ip rows else rows) status utf8 body else v_bad
       | _ => v_bad
       end
     | _ => v_bad
